@@ -972,11 +972,13 @@ class NumberOrderedForm(Operator):
                         new_numbers = sympy.Mul(
                             *[n_operator + sympy.S(i) for i in range(1, to_pair + 1)]
                         )
+                        if new_power > 0:
+                            # Bring all unmatched annihilation operators to the right
+                            new_numbers = new_numbers.xreplace(
+                                {n_operator: n_operator + new_power}
+                            )
                         coeff = coeff * new_numbers
-                    if new_power > 0:
-                        # Bring all unmatched annihilation operators to the right
-                        coeff = coeff.xreplace({n_operator: n_operator + new_power})
-                    else:
+                    if new_power <= 0:
                         # Bring all unmatched creation operators to the left
                         coeff = coeff.xreplace(
                             {n_operator: n_operator + sympy.S(-op_power - to_pair)}
